@@ -672,34 +672,42 @@ package validate
 // re-initialised (init-complete obligations are generated mechanically from the struct definition)
 //@ func newTypeValidator
 //@   effects validation
+//@   assume_result result == nil || forallp(q, implies(desc(q, result), fromPool(q)))
 //@   ensures[C04,C06] result != nil && !redeemed(result) && fromPool(result) && result.Options != nil
 //@   ensures[C04] implies(opts != nil, result.Options == opts)
 //@ func newStringValidator
 //@   effects validation
+//@   assume_result result == nil || forallp(q, implies(desc(q, result), fromPool(q)))
 //@   ensures[C04,C06] result != nil && !redeemed(result) && fromPool(result) && result.Options != nil
 //@   ensures[C04] implies(opts != nil, result.Options == opts)
 //@ func newFormatValidator
 //@   effects validation
+//@   assume_result result == nil || forallp(q, implies(desc(q, result), fromPool(q)))
 //@   ensures[C04,C06] result != nil && !redeemed(result) && fromPool(result) && result.Options != nil
 //@   ensures[C04] implies(opts != nil, result.Options == opts)
 //@ func newNumberValidator
 //@   effects validation
+//@   assume_result result == nil || forallp(q, implies(desc(q, result), fromPool(q)))
 //@   ensures[C04,C06] result != nil && !redeemed(result) && fromPool(result) && result.Options != nil
 //@   ensures[C04] implies(opts != nil, result.Options == opts)
 //@ func newBasicCommonValidator
 //@   effects validation
+//@   assume_result result == nil || forallp(q, implies(desc(q, result), fromPool(q)))
 //@   ensures[C04,C06] result != nil && !redeemed(result) && fromPool(result) && result.Options != nil
 //@   ensures[C04] implies(opts != nil, result.Options == opts)
 //@ func newBasicSliceValidator
 //@   effects validation
+//@   assume_result result == nil || forallp(q, implies(desc(q, result), fromPool(q)))
 //@   ensures[C04,C06] result != nil && !redeemed(result) && fromPool(result) && result.Options != nil
 //@   ensures[C04] implies(opts != nil, result.Options == opts)
 //@ func newSliceValidator
 //@   effects validation
+//@   assume_result result == nil || forallp(q, implies(desc(q, result), fromPool(q)))
 //@   ensures[C04,C06] result != nil && !redeemed(result) && fromPool(result) && result.Options != nil
 //@   ensures[C04] implies(opts != nil, result.Options == opts)
 //@ func newObjectValidator
 //@   effects validation
+//@   assume_result result == nil || forallp(q, implies(desc(q, result), fromPool(q)))
 //@   ensures[C04,C06] result != nil && !redeemed(result) && fromPool(result) && result.Options != nil
 //@   ensures[C04] implies(opts != nil, result.Options == opts)
 
@@ -719,6 +727,7 @@ package validate
 
 //@ func newSchemaValidator
 //@   effects validation
+//@   assume_result result == nil || forallp(q, implies(desc(q, result), fromPool(q)))
 //@   maypanic
 //@   ensures[C06,C04] (result == nil) == (schema == nil)
 //@   ensures[C06,C04] result == nil || (!redeemed(result) && fromPool(result) && result.Options != nil && result.Schema != nil)
@@ -727,6 +736,7 @@ package validate
 
 //@ func newSchemaPropsValidator
 //@   effects validation
+//@   assume_result result == nil || forallp(q, implies(desc(q, result), fromPool(q)))
 //@   maypanic
 //@   ensures[C06,C04] result != nil && !redeemed(result) && fromPool(result) && result.Options != nil
 //@   ensures[C06,C04] readyProps(result)
@@ -761,3 +771,46 @@ package validate
 //@   ensures[C04,C11] redeemed(s) == old(s.Options.recycleValidators)
 //@   ensures[C04,C06] result != nil && okResult(result)
 //@   on_panic ensures[C11] redeemed(s) == old(s.Options.recycleValidators)
+
+// Option values: every option closure of the package writes only the options struct it is given; calls of Option
+// values rely on this (functype contract), and each closure is verified against it.
+//@ functype Option
+//@   modifies all(arg0)
+//@ func EnableObjectArrayTypeCheck$1
+//@   requires svo != nil
+//@   modifies all(svo)
+//@   ensures[C04,C06,C08] true
+//@ func EnableArrayMustHaveItemsCheck$1
+//@   requires svo != nil
+//@   modifies all(svo)
+//@   ensures[C04,C06,C08] true
+//@ func SwaggerSchema$1
+//@   requires svo != nil
+//@   modifies all(svo)
+//@   ensures[C04,C06,C08] true
+//@ func WithRecycleValidators$1
+//@   requires svo != nil
+//@   modifies all(svo)
+//@   ensures[C04,C06,C08] true
+//@ func withRecycleResults$1
+//@   requires svo != nil
+//@   modifies all(svo)
+//@   ensures[C04,C06,C08] true
+//@ func WithSkipSchemataResult$1
+//@   requires svo != nil
+//@   modifies all(svo)
+//@   ensures[C04,C06,C08] true
+
+//@ func NewSchemaValidator
+//@   effects validation
+//@   assume_result result == nil || forallp(q, implies(desc(q, result), fromPool(q)))
+//@   maypanic
+//@   ensures[C06,C04] (result == nil) == (schema == nil)
+//@   ensures[C06,C04] result == nil || (!redeemed(result) && fromPool(result) && result.Options != nil && result.Schema != nil)
+//@   ensures[C06,C04] result == nil || readySV(result)
+
+//@ func AgainstSchema
+//@   effects validation
+//@   maypanic
+//@   requires[C06] isJSON(data)
+//@   modifies elems(options)
